@@ -126,4 +126,24 @@ theorem driver_shape : Gen.MultiExpDriver.driver =
      "for i := 0; i < nbSplits-1; i++ { done := <-chDone p.Add(p, &_p[done]) }",
      "close(chDone)", "return p, nil"] := by decide +kernel
 
+/-- `partitionScalars` around its two translated regions (the selector computation: `Tie.Selector`;
+one iteration of the chunk loop: `Tie.Recode` + `Tie.Selector.digitRead_eq`): a fresh zeroed result,
+the number of chunks `⌈256/c⌉`, one recoding pass per scalar with the carry starting at 0 — after the
+optional conversion out of Montgomery form; a scalar that is zero is skipped (its digits stay zero);
+small-value counting only feeds the first-chunk-split heuristic — over the ranges of `parallel.Execute`
+(which tile `[0, n)`: C20), one send per worker into a channel of capacity `nbTasks`. -/
+theorem partition_shape : Gen.MultiExpDriver.partitionOuter =
+    ["toReturn := make([]fr.Element, len(scalars))",
+     "nbChunks := fr.Limbs * 64 / c",
+     "if (fr.Limbs*64)%c != 0 { nbChunks++ }",
+     "mask := uint64((1 << c) - 1)", "msbWindow := uint64(1 << (c - 1))", "max := int(1 << (c - 1))",
+     "cDivides64 := (64 % c) == 0",
+     "selectors := make([]selector, nbChunks)",
+     "for chunk := uint64(0); chunk < nbChunks; chunk++ { <selector> }",
+     "chSmallValues := make(chan int, nbTasks)",
+     "parallel.Execute(len(scalars), func(start, end int) { smallValues := 0 for i := start; i < end; i++ { var carry int scalar := scalars[i] if scalarsMont { scalar.FromMont() } if scalar.IsUint64() { if scalar[0] == 0 { continue } if scalar[0]&mask == scalar[0] { smallValues++ } } for chunk := uint64(0); chunk < nbChunks; chunk++ { recodeStep } } chSmallValues <- smallValues }, nbTasks)",
+     "close(chSmallValues)", "smallValues := 0",
+     "for o := range chSmallValues { smallValues += o }",
+     "return toReturn, smallValues"] := by decide +kernel
+
 end GoIpa.Tie.MultiExpDriver
